@@ -183,8 +183,106 @@ def rule_r4(chk, facts, P):
         raise AnalysisBroken('only %d carrier copies found in the line decoders' % n)
 
 
+def rule_r5(chk, facts, P):
+    chk.rule('C16-R5', 'field separators: no string literal of the program has characters behind an embedded NUL (an octal '
+             'escape such as "\\009" ends the string after "\\00"), and every DivideChars setting that makes the blank an '
+             'argument divider makes the tab one, too (the manual treats blanks and tabs alike)', min_instances=90)
+    n = 0
+    for f in P.all_funcs():
+        if f.entry is None:
+            continue
+        for b, i, ln, m in f.nodes():
+            if m[0] == 's' and '\x00' in m[1] and m[1].strip('\x00') != '' and '\x00' in m[1].rstrip('\x00'):
+                n += 1
+                chk.ob('C16-R5', '%s:%s:literal@%d' % (f.unit.name, f.name, ln), False, f.loc(ln),
+                       'the string literal %r continues behind a NUL character: everything after it is invisible to the '
+                       'string functions (a "\\009" meant as a tab is NUL followed by the digit 9)' % m[1])
+            if is_assign(m) and m[1] == '=' and nocast(m[2]) in (('g', 'DivideChars'), ('gs', 'DivideChars')):
+                n += 1
+                v = nocast(m[3])
+                if v[0] != 's':
+                    chk.ob('C16-R5', '%s:%s:DivideChars' % (f.unit.name, f.name), True, f.loc(ln), 'not a literal')
+                    continue
+                eff = v[1].split('\x00')[0]
+                ok = not (' ' in eff and '\t' not in eff)
+                chk.ob('C16-R5', '%s:%s:DivideChars' % (f.unit.name, f.name), ok, f.loc(ln),
+                       'dividers %r' % eff if ok else
+                       'the argument dividers are %r: a blank separates the fields but a tab does not, so replacing the '
+                       'blank between two fields by a tab changes the result' % eff)
+    return n
+
+
+def rule_r6(chk, facts):
+    chk.rule('C16-R6', 'strutil.c ReadLnCont(): the carriage return of a CR-LF pair is looked for in the line collected so '
+             'far, not only in the chunk fgets() just delivered: from every branch that finds the chunk empty after the '
+             'LF was removed a test for CR is still reachable inside the chunk loop', min_instances=1)
+    f = facts.func('strutil.c', 'ReadLnCont')
+    lens = set()
+    for b, i, ln, m in f.nodes():
+        if is_assign(m) and m[1] == '=' and nocast(m[2])[0] == 'l' and nocast(m[3])[0] == 'call' and callee_name(nocast(m[3])) == 'strlen':
+            lens.add(nocast(m[2]))
+    if not lens:
+        raise AnalysisBroken('ReadLnCont: chunk length variable not found')
+
+    def cr_test_block(bb):
+        c = f.blocks[bb].get('cond')
+        return c is not None and any(m[0] == 'b' and m[1] in ('==', '!=') and const_val(m[3]) == 13 for m in walk(c))
+    crs = [b for b in f.blocks if cr_test_block(b)]
+    if not crs:
+        raise AnalysisBroken('ReadLnCont: no test for a carriage return found')
+    # the chunk loop: innermost loop containing the CR tests
+    loops = [(h, s0, f.loop_body(h, s0)) for h, s0 in f.loops()]
+    reads = [b for b, i, ln, c in f.calls('fgets')]
+    inner = [x for x in loops if reads and all(r in x[2] for r in reads)]
+    if not inner:
+        raise AnalysisBroken('ReadLnCont: chunk loop (fgets) not found')
+    h, s0, body = min(inner, key=lambda x: len(x[2]))
+    crs = [c for c in crs if c in body]
+    if not crs:
+        chk.ob('C16-R6', 'strutil.c:ReadLnCont:cr-independent-of-chunk-length', True, f.loc(),
+               'no CR test inside the chunk loop: the CR is looked for in the complete line (R3 decides whether early enough)')
+        return
+    n = 0
+    guarded_by_len = False
+    for s_, t, l in f.edges():
+        if s_ not in body or l is None or l[0] not in ('T', 'F'):
+            continue
+        ats = atoms(l[1], l[0] == 'T')
+        if any(a[0] == 'nz' and a[1] in lens for a in ats) or any(a[0] == 'cmp' and a[1] == '>' and a[2] in lens and const_val(a[3]) == 0 for a in ats):
+            if t in crs or any(c in f.reach_forward([t], block_stop=lambda x: x == h) for c in crs):
+                guarded_by_len = True
+    for s_, t, l in f.edges():
+        if s_ not in body or l is None or l[0] not in ('T', 'F'):
+            continue
+        ats = atoms(l[1], l[0] == 'T')
+        empty = any(a[0] == 'z' and a[1] in lens for a in ats) or \
+            any(a[0] == 'cmp' and a[1] in ('<=', '==') and a[2] in lens and const_val(a[3]) == 0 for a in ats)
+        if not empty:
+            continue
+        # only branches behind the removal of the LF (the length was decremented) matter
+        dec, _ = f.guarded(s_, 0, lambda e: False, lambda ex: any(is_incdec(m) and nocast(m[2]) in lens for m in walk_own(ex)), start=s0)
+        if not dec:
+            continue
+        n += 1
+        reach = f.reach_forward([t], block_stop=lambda x: x == h)
+        ok = t in crs or any(c in reach for c in crs)
+        chk.ob('C16-R6', 'strutil.c:ReadLnCont:empty-chunk@%d' % (f.blocks[s_]['term'][1] if f.blocks[s_].get('term') else s_), ok,
+               f.loc(f.blocks[s_]['term'][1] if f.blocks[s_].get('term') else None),
+               'a CR test follows' if ok else
+               'when the chunk holds nothing but the LF no CR is looked for: a CR that fgets() delivered as the last '
+               'character of the previous chunk (line length = buffer size - 2) stays in the line')
+    if n == 0:
+        ok = not guarded_by_len
+        chk.ob('C16-R6', 'strutil.c:ReadLnCont:cr-independent-of-chunk-length', ok, f.loc(),
+               'the CR test does not depend on the chunk length' if ok else
+               'every CR test requires a non-empty chunk: a CR that fgets() delivered as the last character of the previous '
+               'chunk (line length = buffer size - 2) stays in the line')
+
+
 def run(chk, facts, info):
     P = facts.program('asl')
+    rule_r5(chk, facts, P)
+    rule_r6(chk, facts)
     rule_r1(chk, facts, P)
     rule_r2(chk, facts, P)
     rule_r3(chk, facts)
